@@ -219,9 +219,9 @@ func (e *env) runTunnel(t tunnel, accept *sync.Mutex) hv.Val {
 	var cc, bc net.Conn
 	var cend, bend *end
 	accept.Lock()
-	if t.kind == 0 || t.kind == 3 {
+	if t.kind == 0 || t.kind == 3 || t.kind == 7 {
 		addr := e.srv.Addr
-		if t.kind == 3 {
+		if t.kind != 0 {
 			addr = e.srv.TLSAddr
 		}
 		c, err := net.DialTimeout("tcp", addr, deadline)
@@ -231,10 +231,9 @@ func (e *env) runTunnel(t tunnel, accept *sync.Mutex) hv.Val {
 		}
 		cc = c
 		cc.SetDeadline(until)
-		if t.kind == 3 { // wss: the upgrade runs inside a TLS connection that negotiated http/1.1
-			tc := tls.Client(c, &tls.Config{InsecureSkipVerify: true, NextProtos: []string{"http/1.1"}, ServerName: "example.org",
-				MaxVersion: tls.VersionTLS12})
-			if err := tc.Handshake(); err != nil {
+		if t.kind != 0 { // wss: the upgrade runs inside a TLS connection that negotiated http/1.1
+			tc := tls.Client(c, clientTLS(t.kind, "http/1.1"))
+			if err := tc.Handshake(); err != nil || !negotiated(t.kind, tc) {
 				accept.Unlock()
 				c.Close()
 				return errVal()
@@ -284,9 +283,8 @@ func (e *env) runTunnel(t tunnel, accept *sync.Mutex) hv.Val {
 			return errVal()
 		}
 		raw.SetDeadline(until)
-		tc := tls.Client(raw, &tls.Config{InsecureSkipVerify: true, NextProtos: []string{"stream"}, ServerName: "example.org",
-			MaxVersion: tls.VersionTLS12})
-		if err := tc.Handshake(); err != nil || tc.ConnectionState().NegotiatedProtocol != "stream" {
+		tc := tls.Client(raw, clientTLS(t.kind, "stream"))
+		if err := tc.Handshake(); err != nil || tc.ConnectionState().NegotiatedProtocol != "stream" || !negotiated(t.kind, tc) {
 			accept.Unlock()
 			raw.Close()
 			if os.Getenv("VERIF_DEBUG") != "" {
@@ -369,6 +367,33 @@ func (e *env) runTunnel(t tunnel, accept *sync.Mutex) hv.Val {
 	return out
 }
 
+// clientTLS: the client-side TLS parameters of a tunnel kind.  Kinds 4, 5, 6 (stream) and 7 (wss) pin the protocol
+// version and offer CBC suites only; the others take TLS 1.2 with the library's default (AEAD) suites.
+func clientTLS(kind int, proto string) *tls.Config {
+	cfg := &tls.Config{InsecureSkipVerify: true, NextProtos: []string{proto}, ServerName: "example.org", MaxVersion: tls.VersionTLS12}
+	ver := map[int]uint16{4: tls.VersionTLS10, 5: tls.VersionTLS11, 6: tls.VersionTLS12, 7: tls.VersionTLS10}[kind]
+	if ver != 0 {
+		cfg.MinVersion, cfg.MaxVersion = ver, ver
+		cfg.CipherSuites = []uint16{tls.TLS_ECDHE_RSA_WITH_AES_128_CBC_SHA, tls.TLS_RSA_WITH_AES_128_CBC_SHA}
+	}
+	return cfg
+}
+
+// negotiated checks that the handshake really ended in the version / suite class the kind stands for.
+func negotiated(kind int, tc *tls.Conn) bool {
+	st := tc.ConnectionState()
+	cbc := st.CipherSuite == tls.TLS_ECDHE_RSA_WITH_AES_128_CBC_SHA || st.CipherSuite == tls.TLS_RSA_WITH_AES_128_CBC_SHA
+	switch kind {
+	case 4, 7:
+		return st.Version == tls.VersionTLS10 && cbc
+	case 5:
+		return st.Version == tls.VersionTLS11 && cbc
+	case 6:
+		return st.Version == tls.VersionTLS12 && cbc
+	}
+	return st.Version == tls.VersionTLS12 && !cbc
+}
+
 // block scaling of kind 2 tunnels: a wire value stands for blockSize bytes of that value
 const blockSize = 4096
 
@@ -430,7 +455,7 @@ func decode(in hv.Val) ([]tunnel, bool) {
 			return nil, false
 		}
 		t := tunnel{kind: int(hv.AsInt(f[0])), cearly: ce, bearly: be, closer: int(hv.AsInt(f[4])), mode: int(hv.AsInt(f[5]))}
-		if t.kind < 0 || t.kind > 3 || t.closer < 0 || t.closer > 1 || t.mode < 0 || t.mode > 1 {
+		if t.kind < 0 || t.kind > 7 || t.closer < 0 || t.closer > 1 || t.mode < 0 || t.mode > 1 {
 			return nil, false
 		}
 		for _, evv := range evs {
@@ -474,7 +499,7 @@ func impl(in hv.Val) hv.Val {
 		mode = 1
 	}
 	for _, t := range ts {
-		if t.kind >= 2 {
+		if t.kind == 2 || t.kind == 3 {
 			mode = 2
 		}
 	}
@@ -497,7 +522,7 @@ func impl(in hv.Val) hv.Val {
 		go func(i int) {
 			defer wg.Done()
 			acc := &accWS
-			if ts[i].kind == 1 || ts[i].kind == 2 {
+			if k := ts[i].kind; k == 1 || k == 2 || (k >= 4 && k <= 6) {
 				acc = &accST
 			}
 			out[i] = e.runTunnel(ts[i], acc)
@@ -541,12 +566,24 @@ func size(r *hv.Rng) int {
 	}
 }
 
+var forceKind = -1
+
 func genTunnel(r *hv.Rng, big bool) (hv.Val, string) {
 	kind := 0
-	if r.Chance(1, 3) {
+	switch c := r.Intn(12); {
+	case c < 2:
 		kind = 1
-	} else if r.Chance(1, 6) {
-		kind = 3
+	case c < 4:
+		kind = 4 // TLS 1.0 + CBC stream: the server splits every write 1 / n-1
+	case c == 4:
+		kind = 5
+	case c == 5:
+		kind = 6
+	case c == 6:
+		kind = 7
+	}
+	if forceKind >= 0 {
+		kind = forceKind
 	}
 	ce, be := size(r), size(r)
 	if r.Chance(1, 5) {
@@ -555,7 +592,7 @@ func genTunnel(r *hv.Rng, big bool) (hv.Val, string) {
 	if r.Chance(1, 5) {
 		be = 0
 	}
-	class := []string{"ws", "stream", "stream-dynrec", "wss"}[kind]
+	class := []string{"ws", "stream", "stream-dynrec", "wss", "stream-tls10cbc", "stream-tls11cbc", "stream-tls12cbc", "wss-tls10cbc"}[kind]
 	if big { // beyond the 4 KiB bufio buffers of the HTTP server / the backend-side reader
 		if r.Bool() {
 			ce = r.Range(3950, 4500)
@@ -620,8 +657,9 @@ func gen(r *hv.Rng, i int, tier string) (string, hv.Val) {
 		evs = append(evs, hv.L{hv.I(heavy), blocks(8), hv.I(1)}, hv.L{hv.I(heavy), blocks(8), hv.I(r.Intn(2))},
 			hv.L{hv.I(light), blocks(1 + r.Intn(3)), hv.I(1)}, hv.L{hv.I(heavy), blocks(8), hv.I(1)}, hv.L{hv.I(light), blocks(8), hv.I(1)})
 		ts := hv.L{hv.L{hv.I(2), blocks(r.Intn(3)), blocks(r.Intn(3)), evs, hv.I(r.Intn(2)), hv.I(r.Intn(2))}}
+		forceKind = 3 // plus a wss tunnel on the same DynamicRecord server
 		t2, _ := genTunnel(r, false)
-		t2.(hv.L)[0] = hv.I(3) // plus a wss tunnel on the same DynamicRecord server
+		forceKind = -1
 		ts = append(ts, t2)
 		return "bulk-dynrec-stream", ts
 	}
